@@ -113,3 +113,55 @@ fn scrub(v: &Value) -> Value {
         x => x.clone(),
     }
 }
+
+/// Choose the four bytes at `pos` of `data` so that `sum_of(data)` (any CRC-32 of an image in which those
+/// bytes appear verbatim - an affine map of their 32 bits) equals `target`.  Returns whether it was reached.
+pub fn forge_crc(data: &mut [u8], pos: usize, target: u32, sum_of: &dyn Fn(&[u8]) -> u32) -> bool {
+    for j in 0..4 {
+        data[pos + j] = 0;
+    }
+    let base = sum_of(data);
+    let mut cols = [0u32; 32];
+    for bit in 0..32 {
+        data[pos + bit / 8] = 1 << (bit % 8);
+        cols[bit] = sum_of(data) ^ base;
+        data[pos + bit / 8] = 0;
+    }
+    let want = target ^ base;
+    let mut rows: Vec<(u32, bool)> = (0..32)
+        .map(|ob| {
+            let mut m = 0u32;
+            for (b, c) in cols.iter().enumerate() {
+                if (c >> ob) & 1 == 1 {
+                    m |= 1 << b;
+                }
+            }
+            (m, (want >> ob) & 1 == 1)
+        })
+        .collect();
+    let mut pivot = [usize::MAX; 32];
+    let mut r = 0;
+    for v in 0..32 {
+        if let Some(p) = (r..32).find(|&i| (rows[i].0 >> v) & 1 == 1) {
+            rows.swap(r, p);
+            for i in 0..32 {
+                if i != r && (rows[i].0 >> v) & 1 == 1 {
+                    rows[i].0 ^= rows[r].0;
+                    rows[i].1 ^= rows[r].1;
+                }
+            }
+            pivot[v] = r;
+            r += 1;
+        }
+    }
+    let mut x = 0u32;
+    for v in 0..32 {
+        if pivot[v] != usize::MAX && rows[pivot[v]].1 {
+            x |= 1 << v;
+        }
+    }
+    for j in 0..4 {
+        data[pos + j] = (x >> (8 * j)) as u8;
+    }
+    sum_of(data) == target
+}
